@@ -39,6 +39,8 @@ def check(run):
             from . import C16 as _C16
             b2 = run.borrow("C16", only=r"\|unhide$", why="the per-site exception set handed to the generic lookup is built from the unhide bins")
             run.guard("C17.via.C16.2.bin-pairing", cfg, lambda: _C16.rule_pairing(b2, F, cfg))
+            b3 = run.borrow("C08", only=r"SerializeFormat", why="the class and id stores have the same type: only their position tells them apart on the wire")
+            run.guard("C17.via.C08.2.positional", cfg, lambda: _C08.rule_positional(b3, F, cfg))
 
 
 def _store_of(f, t):
